@@ -162,7 +162,7 @@ def main(tier_, replay=None):
     n_schemas, n_cases = (4, 120) if tier_ == "quick" else (24, 400)
     files, meta = [], []
     for si in range(n_schemas):
-        s = gen.gen_input_schema(rng)
+        s = gen.gen_input_schema(rng, p_bad_default=0.15)
         cases = [gen_case(rng, s) for _ in range(n_cases)]
         asts = [gen.parse_query(q) for q, _ in cases]
         runs = asyncio.run(run_schema(s, cases, fresh_schema_name("c04")))
